@@ -125,3 +125,28 @@ def draw_indices(ch, m, max_len, label="idx"):
         j = ch.draw(i + 1, label + "_sw")
         idx[i], idx[j] = idx[j], idx[i]
     return idx
+
+
+class Held:
+    """Results the caller still holds must not change when the object is called again (a
+    returned array that aliases an internal work buffer is silently overwritten later)."""
+
+    def __init__(self, keep=8):
+        self.keep = keep
+        self.items = []  # (opi, name, [arrays], [bytes])
+
+    def hold(self, opi, name, arrays):
+        arrs = [a for a in arrays if isinstance(a, np.ndarray)]
+        if not arrs:
+            return
+        self.items.append((opi, name, arrs, [abytes(a) for a in arrs]))
+        if len(self.items) > self.keep:
+            self.items.pop(0)
+
+    def changed(self):
+        """First (opi, name, output index) whose held array changed since it was returned, or None."""
+        for opi, name, arrs, bs in self.items:
+            for k, (a, b) in enumerate(zip(arrs, bs)):
+                if abytes(a) != b:
+                    return opi, name, k
+        return None
